@@ -79,8 +79,6 @@ func hwExcluded(op string) string {
 		return "non-deterministic / environment dependent"
 	case op == "HLT", op == "INT", op == "SYSCALL", op == "SYSENTER", op == "UD2", strings.HasPrefix(op, "IN"), strings.HasPrefix(op, "OUT"), op == "CLI", op == "STI", op == "CLD", op == "STD", op == "MONITOR", op == "MWAIT", op == "SFENCE", op == "CLFLUSH", op == "CLFLUSHOPT", op == "PAUSE":
 		return "privileged / no register effect of interest"
-	case strings.HasPrefix(op, "BSF"), strings.HasPrefix(op, "BSR"):
-		return "destination undefined for a zero source"
 	case op == "LDMXCSR", op == "VLDMXCSR":
 		return "changes the floating-point environment of the process"
 	case op == "STMXCSR", op == "VSTMXCSR":
@@ -236,7 +234,9 @@ func rnd() uint64 {
 
 func randState(s *state) {
 	for i := range s {
-		switch rnd() % 4 {
+		switch rnd() % 5 {
+		case 4:
+			s[i] = 0
 		case 0:
 			s[i] = rnd()
 		case 1:
